@@ -7,15 +7,15 @@ mkdir -p "$D"
 cp "$S/m$N.diff" "$D/patch.diff"
 rm -rf "$D/demo"; cp -r "$S/m${N}_demo" "$D/demo" 2>/dev/null
 find "$D/demo" -type f \( -name "go.sum" -o -name "*.test" \) -delete 2>/dev/null
-python3 - "$S/m$N.json" "$D/meta.json" "$C" "$R" "$NOTE" <<'PY'
+python3 - "$S/m$N.json" "$D/meta.json" "$C" "$R" "$NOTE" "${CHECK:-$C}" <<'PY'
 import json,sys
-src,dst,c,r,note=sys.argv[1:6]
+src,dst,c,r,note,chk=sys.argv[1:7]
 try: a=json.load(open(src))
 except Exception: a={}
 caught = 'check_exit=1' in r
 json.dump({"property":c,"breaks":a.get("summary",""),"needs_to_manifest":a.get("needs_to_manifest",""),"files":a.get("files",[]),
  "author":"fresh sub-agent given only the property text and its own worktree",
  "confirmed":"tools/evalmutant.sh: patch applies at /repo HEAD, tools/baseline.sh 256/256 with the change, demo/run.sh fails with and passes without it; then applied to /repo, check run, patch undone",
- "result":r,"caught_by_check":caught,"note":note},open(dst,'w'),indent=1)
+ "result":r,"caught_by_check":caught,"check_run":chk,"note":note},open(dst,'w'),indent=1)
 PY
 echo "kept $D"
